@@ -1243,7 +1243,7 @@ func (w *bWorld) submit(op *bOp) {
 		pendingBefore[simenv.ReqKey(e.OperationRequest)]++
 	}
 
-	putsBefore := w.store.PutN
+	putsBefore, cleanupsBefore := w.store.PutN, w.unpub.DeleteAllN
 
 	// now and then the request is exactly as large as the protocol allows (sent with trailing whitespace)
 	if max := int(w.proto.CurrentVersion().P.MaxOperationSize); op.Byz == "" && !op.Dup && len(op.Req)+1 < max && k.Draw(15, "submit.maxsize") == 0 {
@@ -1333,8 +1333,10 @@ func (w *bWorld) submit(op *bOp) {
 		}
 
 		for key, n := range pendingBefore {
-			// (only when the observer stored nothing meanwhile: processing a transaction cleans pending copies up)
-			if o := w.byKey[key]; key != op.Key && pendingNow[key] < n && o != nil && !w.anyStoredOrReplayed(key) && w.store.PutN == putsBefore {
+			// (only when the observer stored nothing and cleaned nothing up meanwhile: processing a transaction cleans pending
+			// copies up - the clean-up of a transaction stored just before this submission may still be under way, and a store
+			// keyed by DID removes whatever is pending for the DID)
+			if o := w.byKey[key]; key != op.Key && pendingNow[key] < n && o != nil && !w.anyStoredOrReplayed(key) && w.store.PutN == putsBefore && w.unpub.DeleteAllN == cleanupsBefore {
 				w.fail("C15", "intake/refusal-removed-pending-copy", fmt.Sprintf("op%d (%s did%d) was refused (%d %s); the unpublished copy of op%d (%s), which is not anchored yet, disappeared with it",
 					op.ID, op.Type, d.Idx, code, short40(op.Err), o.ID, o.Type))
 			}
